@@ -8,6 +8,62 @@ import (
 	"verif/internal/ev"
 )
 
+// secondReader reports whether an execution of another binding that reads kb's snapshot (includeSnapshotsFrom or
+// the same group) started while kb's Synchronization was being executed, i.e. between the start of the first and
+// the end of the successful execution carrying it. That is the situation of the open finding
+// C01-second-reader-drops-buffer (Synchronization tasks always run in the main queue, the other binding's tasks
+// may run in its own queue at the same time).
+func secondReader(h e2e.HookSpec, kb e2e.KB, ctxs []e2e.CtxRef) bool {
+	reads := map[string]bool{}
+	for _, k2 := range h.Kube {
+		if k2.Name == kb.Name {
+			continue
+		}
+		for _, inc := range h.EffectiveIncludes(k2.Includes, k2.Group) {
+			if inc == kb.Name {
+				reads[k2.Name] = true
+			}
+		}
+	}
+	for _, s2 := range h.Sched {
+		for _, inc := range h.EffectiveIncludes(s2.Includes, s2.Group) {
+			if inc == kb.Name {
+				reads[s2.Name] = true
+			}
+		}
+	}
+	isSync := func(r e2e.CtxRef) bool {
+		if kb.Group != "" {
+			return r.Ctx["type"] == "Group" && r.Ctx["groupName"] == kb.Group
+		}
+		return r.Ctx["binding"] == kb.Name && r.Ctx["type"] == "Synchronization"
+	}
+	var from, to int64
+	for _, r := range ctxs {
+		if !isSync(r) {
+			continue
+		}
+		if from == 0 {
+			from = r.Exec.Start
+		}
+		if r.Exec.Exit == 0 {
+			to = r.Exec.End
+			break
+		}
+	}
+	if from == 0 || to == 0 {
+		return false
+	}
+	const slack = int64(20e6)
+	for _, r := range ctxs {
+		b, _ := r.Ctx["binding"].(string)
+		if reads[b] && !isSync(r) && r.Exec.Start >= from-slack && r.Exec.Start <= to+slack {
+			return true
+		}
+	}
+	return false
+}
+
 func runE2E(c e2e.Case) (ev.Info, error) {
 	info := ev.Info{}
 	tr, err := e2e.Run(c)
@@ -29,6 +85,17 @@ func runE2E(c e2e.Case) (ev.Info, error) {
 				if !kb.KeepFull || !kb.AllEv || !(kb.Jq == "" || kb.Jq == ".data") {
 					continue // only when every change passes the binding's filters
 				}
+				// the last change (made after startup) to an object this binding selects
+				var lastChange int64
+				for k, t := range tr.LastStepChange {
+					if kb.Selects(k) && t > lastChange {
+						lastChange = t
+					}
+				}
+				if lastChange == 0 {
+					continue
+				}
+				// a Group execution of this group must have started after it and show the final state of the binding
 				var last *e2e.CtxRef
 				for i := range ctxs {
 					r := ctxs[i]
@@ -36,11 +103,12 @@ func runE2E(c e2e.Case) (ev.Info, error) {
 						last = &ctxs[i]
 					}
 				}
-				if last == nil {
-					if kb.OnSync {
-						return info, fmt.Errorf("hook %s group %s: no Group execution at all", h.Name, kb.Group)
+				if last == nil || last.Exec.Start < lastChange {
+					if secondReader(h, kb, ctxs) {
+						info.Known, info.KnownDetail = "C01-second-reader-drops-buffer", fmt.Sprintf("hook %s binding %s (group %s): a change was not followed by a Group execution; another binding read the snapshot while the Synchronization was running", h.Name, kb.Name, kb.Group)
+						return info, nil
 					}
-					continue
+					return info, fmt.Errorf("hook %s binding %s (group %s): a change to a matching object was not followed by a Group execution (last change to a matching object is later than the start of the last Group execution)", h.Name, kb.Name, kb.Group)
 				}
 				snaps, _ := last.Ctx["snapshots"].(map[string]any)
 				l, _ := snaps[kb.Name].([]any)
@@ -93,6 +161,10 @@ func runE2E(c e2e.Case) (ev.Info, error) {
 			}
 			want := tr.Matching(kb)
 			if e2e.FmtState(state) != e2e.FmtState(want) {
+				if secondReader(h, kb, ctxs) {
+					info.Known, info.KnownDetail = "C01-second-reader-drops-buffer", fmt.Sprintf("hook %s binding %s: Synchronization view plus the %d delivered Events give %s, cluster %s; another binding read the snapshot while the Synchronization was running", h.Name, kb.Name, nEvents, e2e.FmtState(state), e2e.FmtState(want))
+					return info, nil
+				}
 				return info, fmt.Errorf("hook %s binding %s: Synchronization view plus the %d delivered Events give %s, the matching objects of the cluster are %s", h.Name, kb.Name, nEvents, e2e.FmtState(state), e2e.FmtState(want))
 			}
 			if nEvents > 0 {
